@@ -2122,6 +2122,99 @@ func c05r13(p *Program, r *Report) {
 				fmt.Sprintf("a NativeType whose typ may be %s is returned as the column's TypeInfo: goType / unmarshalTuple / unmarshalUDT assert CollectionType, TupleTypeInfo or UDTTypeInfo from Type() without a check and panic in the caller's goroutine (a server names such a type through a custom class name)", strings.Join(open, "/")))
 		}
 	}
+	// single-exit form: the NativeType is put into a TypeInfo variable that the composite cases overwrite; at the
+	// returns of that variable every path either went through an overwrite or excludes the composite ids
+	for _, u := range p.unitsOf(fi) {
+		info := u.Pkg.TypesInfo
+		type conv struct {
+			node ast.Node
+			v    types.Object
+			rhs  ast.Expr
+		}
+		var convs []conv
+		inspectNoLit(u.Decl.Body, func(x ast.Node) bool {
+			switch s := x.(type) {
+			case *ast.AssignStmt:
+				if len(s.Lhs) == len(s.Rhs) {
+					for i, l := range s.Lhs {
+						if id, isId := l.(*ast.Ident); isId && typeNameOf(info.TypeOf(l)) == "TypeInfo" && typeNameOf(info.TypeOf(s.Rhs[i])) == "NativeType" {
+							if obj := info.ObjectOf(id); obj != nil {
+								convs = append(convs, conv{s, obj, s.Rhs[i]})
+							}
+						}
+					}
+				}
+			case *ast.ValueSpec:
+				if len(s.Names) == len(s.Values) {
+					for i, nm := range s.Names {
+						if obj := info.Defs[nm]; obj != nil && typeNameOf(obj.Type()) == "TypeInfo" && typeNameOf(info.TypeOf(s.Values[i])) == "NativeType" {
+							convs = append(convs, conv{s, obj, s.Values[i]})
+						}
+					}
+				}
+			}
+			return true
+		})
+		if len(convs) == 0 {
+			continue
+		}
+		g := p.GraphOf(u)
+		for _, cv := range convs {
+			g.markNodes, g.unmarkNodes = map[ast.Node]string{}, map[ast.Node]string{}
+			inspectNoLit(u.Decl.Body, func(x ast.Node) bool {
+				if as, isA := x.(*ast.AssignStmt); isA && ast.Node(as) != cv.node {
+					for _, l := range as.Lhs {
+						if isIdentOf(info, l, cv.v) {
+							g.markNodes[as] = "over"
+						}
+					}
+				}
+				return true
+			})
+			g.unmarkNodes[cv.node] = "over"
+			rhsS := exprStr(cv.rhs)
+			ps := g.GuardFactsPSAbout(func(atom string) bool {
+				if strings.HasPrefix(atom, "§") {
+					return true
+				}
+				if !mentions(atom, rhsS+".typ") {
+					return false
+				}
+				for _, c := range composites {
+					if mentions(atom, c) {
+						return true
+					}
+				}
+				return false
+			})
+			for _, e := range g.Exits() {
+				rs, ok := e.Node.(*ast.ReturnStmt)
+				if !ok || len(rs.Results) != 1 || !isIdentOf(info, rs.Results[0], cv.v) {
+					continue
+				}
+				ds, has := ps.Before(rs)
+				if !has {
+					continue
+				}
+				n++
+				var open []string
+				for _, d := range ds {
+					if d.m["§over"] {
+						continue
+					}
+					for _, c := range composites {
+						v, known := d.Known(&ast.BinaryExpr{X: &ast.SelectorExpr{X: cv.rhs, Sel: ast.NewIdent("typ")}, Op: token.EQL, Y: ast.NewIdent(c)})
+						if !known || v {
+							open = append(open, c)
+						}
+					}
+				}
+				r.Check(len(open) == 0 && len(ds) > 0, rs, u.Name+" returns the plain NativeType it started from only for a non-composite id", "every path to the return overwrote the result or excludes "+strings.Join(composites, ", "),
+					fmt.Sprintf("the result variable still holds the plain NativeType on a path where its typ may be %s: the decoders assert CollectionType, TupleTypeInfo or UDTTypeInfo from Type() without a check and panic in the caller's goroutine", strings.Join(open, "/")))
+			}
+			g.markNodes, g.unmarkNodes = nil, nil
+		}
+	}
 	if n == 0 {
 		r.Unresolved("readTypeInfo never returns a NativeType")
 	}
